@@ -1,4 +1,5 @@
 import Txtpp.Model.Coord
+import Txtpp.Model.CoordScan
 /-! Executable schedule simulator over the coordinator model: the thread pool runs the first `n`
     undelivered tasks in spawn order (threadpool 1.8: FIFO), the schedule picks which of them is
     delivered next. Used for the trace correspondence M6. -/
@@ -57,5 +58,66 @@ def simLoop (w : World) (n univ : Nat) : Nat → St → List Nat → List (List 
 def simulate (w : World) (n univ : Nat) (inputs : List File) (choices : List Nat) (orders : List (List Task) := []) :
     SimVerdict × List SimStep :=
   simLoop w (max n 1) univ (4 * univ + 8) (init inputs) choices orders []
+
+end Coord
+
+/-! ### simulator with directory scans (all in-flight tasks enabled: thread count ≥ tasks) -/
+namespace Coord
+
+inductive UTask where
+  | scan (d : Dir)
+  | pp (t : Task)
+deriving DecidableEq
+
+def uKey : UTask → Nat × Nat × Nat
+  | .scan d => (0, d, 0)
+  | .pp t => (1, (taskKey t).1, (taskKey t).2)
+
+def uLe (a b : UTask) : Bool :=
+  let ka := uKey a; let kb := uKey b
+  ka.1 < kb.1 || (ka.1 == kb.1 && (ka.2.1 < kb.2.1 || (ka.2.1 == kb.2.1 && ka.2.2 ≤ kb.2.2)))
+
+def insertU (a : UTask) : List UTask → List UTask
+  | [] => [a]
+  | b :: bs => if uLe a b then a :: b :: bs else b :: insertU a bs
+
+def sortU (l : List UTask) : List UTask := l.foldr insertU []
+
+def inFlight (x : SSt) : List UTask := sortU (x.scans.map UTask.scan ++ x.st.pool.map UTask.pp)
+
+structure USimStep where
+  enabled : List UTask
+  choice : Nat
+  spawned : List UTask
+
+def ssimLoop (w : ScanWorld) (univ : Nat) : Nat → SSt → List Nat → List USimStep → SimVerdict × List USimStep
+  | 0, _, _, acc => (.outOfFuel, acc.reverse)
+  | fuel + 1, x, choices, acc =>
+    let en := inFlight x
+    if en.isEmpty then ((if anyWaiting x.st univ then .circular else .ok), acc.reverse)
+    else
+      let c := (choices.headD 0) % en.length
+      match en[c]? with
+      | none => (.panic, acc.reverse)
+      | some (.scan d) =>
+        (match handleScan w { x with scans := x.scans.erase d } d with
+         | none => (.err, (⟨en, c, []⟩ :: acc).reverse)
+         | some x' =>
+           let before := inFlight { x with scans := x.scans.erase d }
+           let spawned := (inFlight x').filter (fun t => !before.contains t)
+           ssimLoop w univ fuel x' choices.tail (⟨en, c, spawned⟩ :: acc))
+      | some (.pp t) =>
+        (match handle { x.st with pool := x.st.pool.erase t } (w.toWorld.result t) with
+         | .fail => (.err, (⟨en, c, []⟩ :: acc).reverse)
+         | .panic => (.panic, (⟨en, c, []⟩ :: acc).reverse)
+         | .cont s' =>
+           let x' := { x with st := s' }
+           let before := inFlight { x with st := { x.st with pool := x.st.pool.erase t } }
+           let spawned := (inFlight x').filter (fun u => !before.contains u)
+           ssimLoop w univ fuel x' choices.tail (⟨en, c, spawned⟩ :: acc))
+
+def ssimulate (w : ScanWorld) (univ ndirs : Nat) (files : List File) (ds : List Dir) (choices : List Nat) :
+    SimVerdict × List USimStep :=
+  ssimLoop w univ (4 * univ + 2 * ndirs + 8) (sinit files ds) choices []
 
 end Coord
